@@ -22,7 +22,7 @@ RULE = ("sizes {1, 2, 1000, 64 KiB, 1 MiB-1, 1 MiB, 1 MiB+1, 4 MiB, 8 MiB} (+ ra
         "{immediate, delayed start, small reads with sleeps, a 7 s stall after the first MiB, small reads while the sender "
         "disables as soon as its send succeeded, abortive close midway} x peer receive buffer {default, 4 KiB}; 1-3 sends per "
         "connection; distinct by (mode, path, sizes, pacing, rcvbuf); non-trivial when the total exceeds 256 KiB "
-        "(more than loopback socket buffering); plus: thousands of 3000-byte sends (and mixed 1..4097-byte sends) towards a peer that reads in bursts or lets the sender run into full buffers and then makes room for 100 kB at a time; a peer that leaves in the middle of a transfer while another one connects at once (nothing of the send may reach the second)")
+        "(more than loopback socket buffering); plus: thousands of 3000-byte sends (and mixed 1..4097-byte sends) towards a peer that reads in bursts or lets the sender run into full buffers and then makes room for 100 kB at a time; a peer that leaves in the middle of a transfer while another one connects at once (nothing of the send may reach the second); half of the send_message transfers while the peer keeps sending Linktest.req and another thread of the application sends Linktest.req through send_message (control messages share the socket with the data)")
 ASSUMPTIONS = ["loopback only; buffer sizes are the kernel's", "payload bytes are a position-keyed pseudo-random stream so loss, "
                "duplication and reordering are all visible", "a send that reports failure only needs to have delivered a prefix"]
 LEVEL_TEXT = ("Runtime conservation monitoring (bytes accepted = bytes received, in order) of the real socket path under "
@@ -32,7 +32,7 @@ TECHNIQUE = "runtime conservation oracle on a raw peer socket under paced draini
 SHARDS = {"quick": 16, "thorough": 16}
 TIMEOUT = {"quick": 400, "thorough": 3400}
 FLOORS = {"transfers.checked": 60, "transfers.larger_than_socket_buffers_with_slow_reader": 8, "path.send_data": 20,
-          "path.send_message": 20, "mode.client": 20, "mode.server": 20, "transfers.peer_closed_midway": 4}
+          "path.send_message": 20, "mode.client": 20, "mode.server": 20, "transfers.peer_closed_midway": 4, "transfers.with_linktest_traffic": 8}
 
 
 def payload(n, salt):
@@ -202,6 +202,29 @@ def _case(ctx, idx, active, path, sizes, pacing, rcvbuf):
         drain.start()
         th = threading.Thread(target=sender, daemon=True, name="harness-sender")
         th.start()
+        if path == "send_message" and idx % 2 == 0 and pacing not in ("close_then_new_peer", "close_midway"):
+            # meanwhile the peer keeps asking for link tests: the endpoint's answers (control messages, written by another
+            # thread than the data) share the socket with the transfer and must not land inside it
+            wit["peer_sends_linktest_requests_during_the_transfer"] = True
+            ctx.count("transfers.with_linktest_traffic")
+
+            @stuck.harness_thread
+            def linktests():
+                k = 0
+                while th.is_alive() and not drain.eof and k < 4000:
+                    k += 1
+                    try:
+                        peer.sendall(wire.hsms_control(wire.LINKTEST_REQ, 0x7000000 + k))
+                    except OSError:
+                        return
+                    try:
+                        # ... and the application (or the linktest timer) sends link tests of its own from another thread
+                        proto.send_message(H.HsmsMessage(H.HsmsLinktestReqHeader(0x6000000 + k), b""))
+                        ctx.count("transfers.control_messages_sent_by_another_thread")
+                    except Exception as exc:  # noqa: BLE001
+                        box.setdefault("linktest_exc", repr(exc))
+                    time.sleep(0.002 + 0.004 * (k % 3))
+            threading.Thread(target=linktests, daemon=True, name="harness-linktests").start()
         second = bytearray()
         if pacing == "close_then_new_peer":
             # the first peer leaves in the middle of the transfer and another one connects at once: it must not get the rest
@@ -287,6 +310,7 @@ def _case(ctx, idx, active, path, sizes, pacing, rcvbuf):
         if path == "send_message":
             # the protocol's own control frames (Select.req of an active endpoint, Linktest) are not part of the payload
             frames, rest = wire.parse_hsms_stream(got)
+            ctx.count("transfers.linktest_responses_seen_by_the_peer", sum(1 for f in frames if f.stype == wire.LINKTEST_RSP))
             got = b"".join(wire.hsms_frame(f.session, f.byte2, f.byte3, f.ptype, f.stype, f.system, f.body) for f in frames
                            if f.stype == wire.DATA) + rest
         ctx.count("transfers.checked")
